@@ -3,6 +3,7 @@ CONSTANTS
   FlagNames = {"a", "b", "c"}
   MaxTok = 3
   LitChars = {}
+  AllUserSets = FALSE
   Export = TRUE
 INVARIANT TypeOK
 INVARIANT AcyclicReachesExpansion
